@@ -344,6 +344,11 @@ def entryChanged (fl : Flags) (wd : FMap WFile) (p : Path) (e : IEntry) : Bool :
 def lstatRaisesNotDir (fl : Flags) (wd : FMap WFile) (p : Path) : Bool :=
   !fl.catchesNotDir && blockedByFile wd p
 
+/-- How `get_unstaged_changes` divides the `n` index entries among its `workers` threads when
+`core.preloadIndex` is on: one task per entry, submitted in index order (with `preload_index=False`
+the entries are visited one after the other).  Results are collected in the order of submission. -/
+def scanSlices (n _workers : Nat) : List (List Nat) := (List.range n).map (fun i => [i])
+
 def changedAt (fl : Flags) (wd : FMap WFile) (index : FMap IEntry) (p : Path) : Bool :=
   match index.get p with
   | some e => entryChanged fl wd p e
